@@ -2,7 +2,7 @@
    ancestry; with all validators honest and timely delivery finality keeps advancing."  Model: Bft/Model.v. *)
 From Coq Require Import List NArith Bool Lia.
 From Verif Require Import Common.Util Bft.Tree Bft.Model Bft.Quorum Bft.ProofsTally Bft.ProofsChain Bft.ProofsNode
-  Bft.Safety Bft.ProofsWitness.
+  Bft.Safety Bft.ProofsWitness Bft.ProofsFinal.
 Import ListNotations.
 Open Scope N_scope.
 
@@ -63,6 +63,15 @@ Theorem import_history_invariants c guard g master bs : 0 < c_L c -> b_num g = 0
   inv c (import_all c guard (init_node g master) bs).
 Proof. intros HL Hg Hv. apply import_all_inv; [exact HL | apply init_inv; exact Hg | exact Hv]. Qed.
 
+(* 3b. finalized only moves forward (_partial: number and chain membership; "the old checkpoint is an ancestor of the
+       new one" additionally needs Accepts + the suffix argument, not assembled): CommitBlock leaves finalized
+       unchanged or sets it to a block found on the committed block's own chain at a number >= the old one's *)
+Theorem finalized_moves_forward_partial guard c r e b packing :
+  let e' := fst (commit_block guard c r e b packing) in
+  e_fin e' = e_fin e \/
+  exists x, In x (chain_of r (b_id b)) /\ e_fin e' = b_id x /\ idnum (e_fin e) <= b_num x.
+Proof. exact (commit_block_finalized guard c r e b packing). Qed.
+
 (* 4. general safety.  The statement over all valid runs (every honest block proposed by its signer on its own best
       block with the engine's COM bit, score increments within 1..n being *data* of the run, fewer than a third
       Byzantine) is REFUTED in the model: the `quality >= headQuality-1` window of ShouldVote forgets an own
@@ -91,5 +100,6 @@ Print Assumptions committed_implies_justified.
 Print Assumptions quality_monotone.
 Print Assumptions justified_monotone.
 Print Assumptions import_history_invariants.
+Print Assumptions finalized_moves_forward_partial.
 Print Assumptions bft_safety_without_premise_refuted.
 Print Assumptions f4_needs_tie_switch.
